@@ -921,11 +921,11 @@ def owners(c):
 
     def build_ll(m, ems):
         no = m.n_outputs()
-        return c.LogLikelihood(m, ems[:no] if len(ems) >= no else ems * no, [[1.5, 2.5, 3.5]] * no, [[1.0, 2.0, 4.0]] * no)
+        return c.LogLikelihood(m, ems if len(ems) == no else (ems[:no] if len(ems) >= no else ems * no), [[1.5, 2.5, 3.5]] * no, [[1.0, 2.0, 4.0]] * no)
 
     def build_pm(m, ems):
         no = m.n_outputs()
-        return c.PredictiveModel(m, ems[:no] if len(ems) >= no else ems * no)
+        return c.PredictiveModel(m, ems if len(ems) == no else (ems[:no] if len(ems) >= no else ems * no))
 
     def obs_pm(pm):
         x = 0.6 + 0.1 * np.arange(pm.n_parameters())
@@ -934,7 +934,7 @@ def owners(c):
 
     def build_ctrl(m, ems):
         no = m.n_outputs()
-        ctrl = c.ProblemModellingController(m, ems[:no] if len(ems) >= no else ems * no)
+        ctrl = c.ProblemModellingController(m, ems if len(ems) == no else (ems[:no] if len(ems) >= no else ems * no))
         rows = []
         for i_ in (1, 2):
             for o in m.outputs():
@@ -961,13 +961,17 @@ def ownership(rec):
         n = 0
         for (ml, mk, mmut), (el, ek, emut), (ol, build, observe) in itertools.product(user_models(c), user_error_models(c), owners(c)):
             m, em = mk(), ek()
+            ems = [em] * m.n_outputs()          # the caller's own list of error models (passed as it is when its length fits)
             try:
-                owner = build(m, [em])
+                owner = build(m, ems)
             except TypeError:
                 continue            # documented rejection (the controller accepts only unreduced error models)
             n += 1
+            if len(ems) != m.n_outputs() or any(e_ is not em for e_ in ems):
+                return ('refuted', 'native execution', '%s built from %s and a list of %s: the constructor changed the caller\'s list of error models (it now holds other objects) | native: executed on the installed chi' % (ol, ml, el),
+                        {'owner': ol, 'mechanistic': ml, 'error': el, 'what': 'the list of error models passed to the constructor was modified', 'expected': 'list unchanged', 'observed': [type(e_).__name__ for e_ in ems]})
             mine = reachable_mutable([owner])
-            theirs = reachable_mutable([m, em])
+            theirs = reachable_mutable([m, em, ems])
             shared = sorted(set(mine) & set(theirs), key=lambda i: len(mine[i][1]))
             if shared:
                 i0 = shared[0]
